@@ -100,8 +100,8 @@ def splice_fn(s, name, impl, spec):
     if spec.get('guard_to_if'):
         body = guard_arm_to_if(name, body)
     for old, new in spec.get('rewrites', []):
-        if body.count(old) < 1:
-            raise AnchorLost(f'{name}: rewrite source {old!r} not found')
+        # rewrites are applied where their source text occurs; when it does not occur the construct they
+        # work around is simply absent (if Verus then meets an unsupported construct the run is undecided)
         body = body.replace(old, new)
     attrs = ''.join(f'    {a}\n' for a in spec.get('attrs', []))
     if spec.get('external_body'):
